@@ -2,6 +2,8 @@ package lhsim
 
 import (
 	"fmt"
+	"os"
+	"strings"
 	"strconv"
 
 	"github.com/orbs-network/lean-helix-go/services/interfaces"
@@ -39,10 +41,27 @@ var allStrategies = []string{
 	"byz.bytes",
 }
 
+// families of strategies that work on the same part of the protocol (prefix match)
+var strategyFamilies = []string{"byz.pp", "byz.vote", "byz.nv", "byz.replay", "byz.sig-replay", "byz.self-prepare", "byz.foreign", "byz.mutate"}
+
 func drawStrategies(ch *Chooser, disabled map[string]bool) []string {
 	var out []string
-	mode := ch.Pick("strat-mode", 3) // 0: all, 1: random half, 2: follow + one
+	if f := os.Getenv("SIM_FORCE_STRATS"); f != "" { // development aid: focus the adversary (never set by ./check)
+		for _, s := range strings.Split(f, ",") {
+			if !disabled[s] {
+				out = append(out, s)
+			}
+		}
+		ch.Pick("strat-mode", 4)
+		ch.Pick("strat-one", len(allStrategies))
+		ch.Pick("strat-two", len(allStrategies))
+		ch.Pick("strat-family", len(strategyFamilies))
+		return out
+	}
+	mode := ch.Pick("strat-mode", 4) // 0: all, 1: random half, 2: follow + one, 3: follow + proposals + two more
 	one := ch.Pick("strat-one", len(allStrategies))
+	two := ch.Pick("strat-two", len(allStrategies))
+	fam := strategyFamilies[ch.Pick("strat-family", len(strategyFamilies))]
 	for i, s := range allStrategies {
 		if disabled[s] {
 			continue
@@ -56,6 +75,12 @@ func drawStrategies(ch *Chooser, disabled map[string]bool) []string {
 			}
 		case 2:
 			if i == one || s == "byz.follow" {
+				out = append(out, s)
+			}
+		case 3:
+			// a focused adversary: with two dozen strategies in the catalogue a uniform draw uses each too rarely for
+			// attacks that need the same few moves several times in a row
+			if i == two || s == "byz.follow" || s == "byz.pp" || strings.HasPrefix(s, fam) {
 				out = append(out, s)
 			}
 		}
@@ -303,6 +328,33 @@ func (w *World) advPP(b int, h, v uint64, tag string) bool {
 		attach = w.freshBlock(h, b, false) // block does not match the signed hash
 	}
 	raw := SignedRefMsg(sg, KPP, protocol.LEAN_HELIX_PREPREPARE, w.instance, h, v, blk.Hash(), nil, attach)
+	if w.ch.Pick("pp-split", 3) == 2 && attach == interfaces.Block(blk) {
+		// equivocation in one breath: one correct node gets proposal A, all the others proposal B, and the adversary goes
+		// on to support B (the node holding A then sees PREPAREs / COMMITs for a hash it did not accept)
+		var live []int
+		for _, n := range w.honest() {
+			if n.alive {
+				live = append(live, n.idx)
+			}
+		}
+		if len(live) >= 2 {
+			odd := live[w.ch.Pick("pp-split-odd", len(live))]
+			var rest []int
+			for _, i := range live {
+				if i != odd {
+					rest = append(rest, i)
+				}
+			}
+			w.rememberByzProposal(raw)
+			w.inject(b, raw, tag, []int{odd})
+			blkB := w.freshBlock(h, b, false)
+			rawB := SignedRefMsg(sg, KPP, protocol.LEAN_HELIX_PREPREPARE, w.instance, h, v, blkB.Hash(), nil, blkB)
+			w.rememberByzProposal(rawB)
+			w.advPlan = append(w.advPlan, "byz.follow", "byz.follow", "byz.follow", "byz.follow")
+			w.probe("byz-split-proposal")
+			return w.inject(b, rawB, tag, rest) > 0
+		}
+	}
 	w.rememberByzProposal(raw)
 	if poison {
 		w.use("byz.poison-block")
@@ -408,6 +460,18 @@ func (w *World) forgeProofKind(b int, h, below uint64, kind int) (Proof, *Block,
 	for _, p := range props {
 		if p.Ref.V < below {
 			cand = append(cand, p)
+		}
+	}
+	if len(w.avoidHash) > 0 {
+		// the caller wants a certificate that competes with a known lock: another block, if there is one
+		var other []*Msg
+		for _, p := range cand {
+			if !sameBytes(p.Ref.Hash, w.avoidHash) {
+				other = append(other, p)
+			}
+		}
+		if len(other) > 0 {
+			cand = other
 		}
 	}
 	if len(cand) == 0 {
@@ -624,15 +688,30 @@ func (w *World) advNewView(b int, h, v uint64, tag string) bool {
 	var staleBlk interfaces.Block
 	if tag == "byz.nv-stale-lock" {
 		// the leader's own vote carries an older genuine prepared proof (copied from an honest vote, or assembled
-		// from genuine PREPARE signatures) and the NEW_VIEW re-proposes that older block
-		if caps := w.capturedProofs(h); len(caps) > 0 && w.ch.Pick("stale-copy", 2) == 1 {
+		// from genuine PREPARE signatures) and the NEW_VIEW re-proposes that older block. A certificate for the block
+		// the honest votes are locked on would change nothing: one for ANOTHER block is preferred.
+		if best != nil {
+			w.avoidHash = best.msg.Vote.Proof.PP.Hash
+			defer func() { w.avoidHash = nil }()
+		}
+		src := w.ch.Pick("stale-source", 4) // 0 copy a genuine older proof, 1 assemble one, 2 mixed-hash, 3 spliced views
+		if caps := w.capturedProofs(h); len(caps) > 0 && src == 0 {
+			var other []*SentRec
+			for _, c := range caps {
+				if best == nil || !sameBytes(c.msg.Vote.Proof.PP.Hash, best.msg.Vote.Proof.PP.Hash) {
+					other = append(other, c)
+				}
+			}
+			if len(other) > 0 {
+				caps = other
+			}
 			c := caps[w.ch.Pick("stale-cap", len(caps))]
 			if c.msg.Vote.Proof.PP.V < tv {
 				ownProof, staleBlk = c.msg.Vote.Proof, c.raw.Block
 			}
 		}
 		if !ownProof.Present {
-			switch w.ch.Pick("stale-mixed", 4) {
+			switch src {
 			case 2:
 				if p, bk, ok := w.forgeProofKind(b, h, tv, 5); ok && bk != nil {
 					ownProof, staleBlk = p, bk
